@@ -115,7 +115,7 @@ pub fn render(sc: &Value) -> Rendered {
     } else if kind == "length" {
         framing_fields.push(("Content-Length".into(), raw.len().to_string().into_bytes()));
     }
-    if coding != "identity" {
+    if coding != "identity" && !gb(sc, "coding_explicit") {
         let tok = gso(sc, "coding_token").unwrap_or(coding);
         let field = gso(sc, "coding_field").unwrap_or("Content-Encoding");
         if field.eq_ignore_ascii_case("transfer-encoding") {
@@ -349,6 +349,11 @@ pub fn render(sc: &Value) -> Rendered {
             }
             spec_fault = fkind.clone();
         }
+        "bad" if gs(&fault_v, "what") == "trailer" => {
+            // damaged integrity trailer of the compressed stream (the octets were flipped above)
+            fault_at = wire.len().saturating_sub(1);
+            spec_fault = "bad".into();
+        }
         "bad" => {
             if let Some(b) = bad_at {
                 fault_at = b;
@@ -397,6 +402,7 @@ pub fn render(sc: &Value) -> Rendered {
     // abstract tokens of the framing fields, for the specification's decision table
     let mut clv: Vec<i64> = Vec::new();
     let mut tet: Vec<String> = Vec::new();
+    let mut cet: Vec<String> = Vec::new();
     for (n, v) in &fields {
         if n.eq_ignore_ascii_case("content-length") {
             let sv = String::from_utf8_lossy(v).to_string();
@@ -405,6 +411,10 @@ pub fn render(sc: &Value) -> Rendered {
         } else if n.eq_ignore_ascii_case("transfer-encoding") {
             for t in String::from_utf8_lossy(v).split(',') {
                 tet.push(t.trim().to_ascii_lowercase());
+            }
+        } else if n.eq_ignore_ascii_case("content-encoding") {
+            for t in String::from_utf8_lossy(v).split(',') {
+                cet.push(t.trim().to_ascii_lowercase());
             }
         }
     }
@@ -425,7 +435,8 @@ pub fn render(sc: &Value) -> Rendered {
         "textLen": 0,
         "method": method,
         "coding": coding,
-        "clv": clv, "te": tet,
+        "clv": clv, "te": tet, "ce": cet,
+        "codedEnd": if kind == "chunked" { data_pos.last().map(|p| p + 1).unwrap_or(head_end) } else { head_end + raw.len() },
         "nocheck": gb(sc, "nocheck") || sc.get("raw_head_hex").is_some(),
     });
     Rendered { wire, truth, script, fault, head_fields: fields }
